@@ -164,4 +164,44 @@ def drun : DState → List DAction → Option DState
   | s, [] => some s
   | s, a :: rest => (dstep s a).bind fun s' => drun s' rest
 
+/-! ## observed traces of the library's synchronisation points
+
+  The `verif` build calls a hook at twelve points of `duplex_http_call.go`; the harness records
+  the global order in which one call passes them (under injected delays). A recorded trace is
+  replayed on the transition system above: each point is the *completion* of the action in front
+  of it (`d.ensureRequestMade(); yield("write.ctxcheck")`, `BlockUntilResponseReady(); yield("read.ready")`,
+  `yield("request.closeready"); close(responseReady)`). -/
+
+inductive Ev where
+  | writeCtx | writePipe | writeDone | closeWrite          -- API goroutine, request side
+  | readReady | readBody | readDone | closeRead            -- API goroutine, response side
+  | setErrorClosePipe                                      -- any goroutine
+  | requestDo | requestDone | requestCloseReady            -- request goroutine
+  deriving DecidableEq, Repr
+
+def Ev.isResponseUse : Ev → Bool
+  | .readReady | .readBody | .readDone | .closeRead => true
+  | _ => false
+
+/-- the actions of the transition system an observed point stands for -/
+def Ev.actions : Ev → List DAction
+  | .writeCtx | .closeWrite => [.ensureRequestMade]
+  | .requestDo => [.ensureRequestMade]            -- the goroutine exists: `sendRequestOnce` fired
+  | .requestDone => [.doReturns true]
+  | .requestCloseReady => [.closeReady]
+  | .readReady | .readBody | .readDone | .closeRead => [.apiProceed]
+  | .writePipe | .writeDone | .setErrorClosePipe => []
+
+def traceRun (s : DState) : List Ev → Option DState
+  | [] => some s
+  | e :: rest => (drun s e.actions).bind fun s' => traceRun s' rest
+
+/-- first rejected position of a trace (for the driver's answer) -/
+def traceReject (s : DState) : List Ev → Nat → Option Nat
+  | [], _ => none
+  | e :: rest, i =>
+    match drun s e.actions with
+    | none => some i
+    | some s' => traceReject s' rest (i + 1)
+
 end ConnectModel
